@@ -90,9 +90,15 @@ def run(ctx: Ctx):
     ypool, st2 = work.generated_pool(rng, 4 if quick else 40, profile=dict(PROFILE, yields=True, w=dict(PROFILE["w"], yield_=8)))
     epool, st3 = work.generated_pool(rng, 8 if quick else 60, profile=dict(PROFILE, eof=True, end_prob=0.3, w=dict(PROFILE["w"], hook=16, try_=10)))
     cases = []
+    from . import c03
     for ast, src, args, r in pool + ypool + epool:
         base = args + ["-O2"]
-        variants = [("default", src, base)] + [("row", src, base + row) for row in rows(rng, nrows)]
+        rws = rows(rng, nrows)
+        if c03.has_idx(ast) and "delete " in src:
+            # s[i] with i at or beyond the current length reads whatever the buffer still holds: stale bytes after `delete s` in place,
+            # nothing once the buffer has been freed. Such a read is outside what a program may rely on; not a representation difference
+            rws = [[f for f in row if f != "-fdelete-string-free-memory"] for row in rws]
+        variants = [("default", src, base)] + [("row", src, base + row) for row in rws]
         cases.append(diff.Case("gen", variants, ast=ast))
     # hooks and outputs on end-of-input transitions (end() is part of every run of an EOF build)
     for src in ('out int n = 0;\nhook h0;\nhook h1;\nparser {\n "ab";\n h0();\n end;\n h1();\n n = 3;\n}\n',
